@@ -159,6 +159,13 @@ pub fn main(args: &[String]) -> i32 {
             jobs.push(json!({"id":id,"hist":hist,"mode":"mt","pat_s":pat,"flags_s":flags,"x":!xsd,"calls":[]}));
             continue;
         }
+        if mode == "facts" {
+            // only the compile-time facts are wanted (validated by FactsTrace.tla)
+            let mut j = job(id, &pat, &flags, !xsd, &[], &repls, false);
+            j["facts"] = json!(true);
+            jobs.push(j);
+            continue;
+        }
         let mut j = job(id, &pat, &flags, !xsd, &inputs, &repls, false);
         if with_unopt {
             // the same source also compiled with every optimisation off, run through the same calls (C08)
@@ -172,7 +179,17 @@ pub fn main(args: &[String]) -> i32 {
     let njobs = jobs.len();
     let faults = Mutex::new(std::fs::File::create(format!("{}/faults.ndjson", out)).expect("faults file"));
     let nfaults = Mutex::new(0u64);
+    let facts_out = Mutex::new(std::fs::File::create(format!("{}/facts.ndjson", out)).expect("facts file"));
     pool::process(nworkers, jobs.into_iter(), |job, reply| {
+        if let Some(fa) = reply.get("facts") {
+            if fa.get("minlen").is_some() {
+                let opt = |v: &Value| if v.is_null() { json!({"some": false, "v": []}) } else { json!({"some": true, "v": v}) };
+                let ev = json!({"ev":"facts","pat":job["pat"],"flags":job["flags"],"xpath":job["x"],
+                                "facts":{"prefix":opt(&fa["prefix"]),"initial":opt(&fa["initial"]),"minlen":fa["minlen"],
+                                         "hasbol":fa["hasbol"],"pre":fa["pre"]}});
+                let _ = writeln!(facts_out.lock().unwrap(), "{}", ev);
+            }
+        }
         // faults (hang / abort) were attributed call by call by the pool
         let mut recs = Vec::new();
         let ck = reply["compile"]["k"].as_str().unwrap_or("");
